@@ -14,7 +14,7 @@ def lean_list(xs):
 
 def extract(ctx):
     facts = {}
-    sol = vlib.read(os.path.join(vlib.REPO, SOL))
+    sol = vlib.read_contract(SOL)
     m = re.search(r"function\s+parseVM\s*\([^)]*\)[^{]*\{(.*?)\n    \}", sol, re.S)
     if not m:
         ctx.gen_fail("C04", "parseVM not found in " + SOL); return None
@@ -60,7 +60,7 @@ def extract(ctx):
     facts["solDoubleHash"] = bool(re.search(r"vm\.hash\s*=\s*keccak256\(abi\.encodePacked\(keccak256\(body\)\)\);", body))
     facts["solVersionCheck"] = bool(re.search(r"require\(vm\.version\s*==\s*1\s*,", body))
 
-    ral = vlib.read(os.path.join(vlib.REPO, RAL))
+    ral = vlib.read_contract(RAL)
     m = re.search(r"pub fn parseAndVerifyVAA\(.*?\n    \}", ral, re.S)
     if not m:
         ctx.gen_fail("C04", "parseAndVerifyVAA not found in " + RAL); return None
@@ -109,9 +109,6 @@ def extract(ctx):
     rb.append(("payload", int(mm.group(1)), 0))
     facts["ralBody"] = rb
 
-    go = vlib.read(os.path.join(vlib.REPO, GO))
-    facts["goDoubleHash"] = bool(re.search(r"crypto\.Keccak256Hash\(crypto\.Keccak256Hash\(v\.signingBody\(\)\)\.Bytes\(\)\)", go)) and \
-        bool(re.search(r"func \(v \*VAA\) signingBody\(\) \[\]byte \{\s*return v\.serializeBody\(\)\s*\}", go))
     return facts
 
 
@@ -132,7 +129,7 @@ def gen(ctx):
     src += "/-- the variable the body offset is multiplied by -/\ndef ralBodyStartCount : String := \"%s\"\n" % f["ralBodyStartCount"]
     src += "def ralBody : List (String × Nat × Nat) := %s\n" % lean_list(f["ralBody"])
     src += "/-- fields whose integer conversion width differs from the slice it is applied to -/\ndef ralConvMismatch : Nat := %d\n" % len(f["ralConvMismatch"])
-    src += "def ralDoubleHash : Bool := %s\n\n/-- structs.go: SigningMsg = Keccak(Keccak(serializeBody)) -/\ndef goDoubleHash : Bool := %s\n" % (b(f["ralDoubleHash"]), b(f["goDoubleHash"]))
+    src += "def ralDoubleHash : Bool := %s\n" % b(f["ralDoubleHash"])
     src += "\nend Whv.Gen.C04\n"
     ctx.gen("C04", src)
     return f
